@@ -3,6 +3,20 @@
 CRYPTO_NOTE = "cryptographic primitives are parameters of the model; assumptions about them are explicit theorem hypotheses"
 
 PROPS = {
+    "C01": {
+        "rule": "honest end-to-end sessions on the real library: documents issued from random sub-records of the WHOLE mDL and AAMVA data models (through FromJson/to_ns_map, every value type: Latin-1 text, full dates, date-times, byte strings, integers, booleans, code tables, privilege structures), SHA-256/384/512 digests, decoys on/off, a second unrelated document held or not, every retrieval configuration of C18, "
+                "1..4 rounds per session with random requested and permitted sets per round (including elements that are not held, AAMVA-only agreements and empty agreements), the holder signing with the issued device key, the reader configured with / without the issuer's root as trust anchor. "
+                "Per session: both roles' session keys against the Lean key derivation, both BLE idents; per round: the request decrypts at the device, the reader's reported element set = requested ∩ permitted ∩ held (Lean set predicate), every reported value = the issued value under the documented CBOR->JSON view (independent converter), both statuses and the error map. Distinct by (session, round)",
+        "xlate_items": [],
+        "trusted_base": ["composition of the models of C02 (disclosure), C03-C05 (authentication logic), C06/C07/C13 (session), C08 (key derivation) - each tied to the code by its own correspondence",
+                         "the harness's own CBOR->JSON view of issued values (text, tagged text, integers, booleans, byte strings as number arrays, arrays, text-keyed maps)",
+                         "ECDH symmetry is observed (both roles' keys compared on every session), not proved"],
+        "level_text": "Lean theorems: for ANY number of rounds, each with any non-empty set of prepared documents, starting from the state right after establishment, every request is accepted by the device and every response by the reader, with status 0 and each document paired with its own signature (induction over rounds over the session model); the response of a round discloses an item iff it was requested, permitted and held, as the issued item (from C02 soundness + completeness, with the held-and-signable case analysed); "
+                      "when the response reaches validation, the chain validates against a configured anchor, the issuer signature and digests check and the holder's signature verifies, BOTH statuses are Valid with an empty error map; both roles' keys are the same function of the same inputs and equal the ISO formula (C08). The harness evaluates the same statements on what the real reader reports for generated sessions.",
+        "level_note": "A composition: the theorems are about the composed models; that the real reader's report equals the model's is checked on generated sessions (all value types, digest algorithms, retrieval methods, 1..4 rounds), not proved.",
+        "technique": "Lean 4 proof (induction over rounds; composition of the C02/C03-05/C08 theorems) + end-to-end correspondence on real sessions",
+        "assumptions": ["round counts in real sessions are sampled 1..4 (the theorem covers every count)"],
+    },
     "C02": {
         "rule": "(a) exhaustive small scope: 2 document types x 1 namespace x 2 elements, every held/requested/permitted subset; (b) random cases with up to 3 held documents x 3 namespaces x 4 elements, requests naming unheld documents/namespaces/elements and "
                 "repeating a document type, permissions that are supersets, contain duplicates, are shuffled, name unrequested documents; a non-signing device key; through the real default DeviceSession::prepare_response (public trait) and filter_permitted; "
